@@ -1,5 +1,8 @@
 //! zv — harness front door: translator (`extract`), tree dump (`dump`), real-library runs (`gen`, ...).
+mod dump;
 mod extract_restr;
+mod extract_tables;
+mod run;
 mod rs2lean;
 
 use std::{fs, path::Path, process::ExitCode};
@@ -25,6 +28,9 @@ fn cmd_extract(repo: &str, out: &str) -> ExitCode {
     if write_if_changed(&out.join("Restrictions.lean"), &extract_restr::extract(&helpers)) {
         changed.push("Restrictions.lean");
     }
+    if write_if_changed(&out.join("Tables.lean"), &extract_tables::extract(repo)) {
+        changed.push("Tables.lean");
+    }
     println!("extract: changed={changed:?}");
     ExitCode::SUCCESS
 }
@@ -33,6 +39,30 @@ fn main() -> ExitCode {
     let args: Vec<String> = std::env::args().collect();
     match args.get(1).map(String::as_str) {
         Some("extract") if args.len() == 4 => cmd_extract(&args[2], &args[3]),
+        Some("gen") if args.len() == 5 => {
+            println!("{}", run::cmd_gen(&args[2], &args[3], &args[4]));
+            ExitCode::SUCCESS
+        }
+        Some("dump") if args.len() == 4 => {
+            println!("{}", run::cmd_dump(&args[2], &args[3]));
+            ExitCode::SUCCESS
+        }
+        Some("batch") => {
+            // stdin lines: <dir> <start> <out-rs|-> <out-dump|->
+            use std::io::BufRead;
+            for line in std::io::stdin().lock().lines().map_while(Result::ok) {
+                let f: Vec<&str> = line.split('\t').collect();
+                if f.len() != 4 {
+                    println!("bad-line");
+                    continue;
+                }
+                if f[3] != "-" {
+                    run::cmd_dump(f[0], f[3]);
+                }
+                println!("{}", run::cmd_gen(f[0], f[1], f[2]));
+            }
+            ExitCode::SUCCESS
+        }
         _ => {
             eprintln!("usage: zv extract <repo> <outdir>");
             ExitCode::from(2)
